@@ -361,13 +361,31 @@ def r_literal(l, ly):
     if l[0] in ("rawnum", "rawstr"):   # a literal given by its spelling (parser streams)
         return l[1]
     body = unS(l[1])
-    if "'" in body and '"' not in body:
-        q = '"'
-    elif '"' in body and "'" not in body:
-        q = "'"
-    else:
+    q = quote_for(body)
+    if q is None:
         q = "'" if ly.coin() else '"'
     return q + body + q
+
+
+def quote_for(body):
+    """the quote character a raw string body requires (None: either); ValueError when no spelling exists"""
+    need = set()
+    i, n = 0, len(body)
+    while i < n:
+        c = body[i]
+        if c == "\\" and i + 1 < n:
+            if body[i + 1] in "'\"":
+                need.add(body[i + 1])          # ESC quote is only allowed inside that kind of quote
+            i += 2
+            continue
+        if c == "'":
+            need.add('"')
+        elif c == '"':
+            need.add("'")
+        i += 1
+    if len(need) > 1:
+        raise ValueError("no quote style can spell this body")
+    return need.pop() if need else None
 
 
 def r_selector(s, ly):
@@ -487,6 +505,52 @@ def r_filter(f, ly):
 
 def render(q, ly):
     return "$" + r_segments(q[1:], ly)
+
+
+def body_escapes_ok(body):
+    """every backslash of a raw string body starts an escape sequence of RFC 9535 (so that the rendered sentence is one)"""
+    i, n = 0, len(body)
+    while i < n:
+        c = body[i]
+        if c == "\\":
+            if i + 1 >= n:
+                return False
+            e = body[i + 1]
+            if e == "u":
+                if i + 6 > n or any(h not in "0123456789abcdefABCDEF" for h in body[i + 2:i + 6]):
+                    return False
+                i += 6
+                continue
+            if e not in "bfnrt/\\'\"":
+                return False
+            i += 2
+            continue
+        if ord(c) < 0x20:
+            return False
+        i += 1
+    return True
+
+
+def renderable(t):
+    """the AST's raw names and string literals can be spelled in a query string: no invalid escape, no raw control
+    character, and not both kinds of unescaped quote in one literal"""
+    if not isinstance(t, tuple) or not t:
+        return True
+    if t[0] == "s":
+        return True
+    if t[0] == "str" and len(t) == 2:
+        body = unS(t[1])
+        try:
+            quote_for(body)
+        except ValueError:
+            return False
+        return body_escapes_ok(body)
+    if t[0] in ("name", "n") and len(t) == 2 and isinstance(t[1], tuple):
+        raw = unS(t[1])
+        if raw[:1] in ("'", '"'):
+            return len(raw) >= 2 and raw[-1] == raw[0] and body_escapes_ok(raw[1:-1])
+        return True
+    return all(renderable(x) for x in t[1:])
 
 
 def parser_shaped(t):
